@@ -101,9 +101,27 @@ func genC11(dir, tier string, seed int64) {
 				sh[i] = int64(1 + r.Intn(3))
 			}
 			tp, t := valueProto(ti, 1)
+			if rep%2 == 1 { // the one-element value as a rank-0 tensor
+				tp.Dims = nil
+				t, _ = onnx.TensorFromProto(tp)
+			}
 			a := attr{name: "value", kind: "tensor", tp: tp, t: t}
 			emitOp(cw, "ConstantOfShape", []attr{a}, func() []tensor.Tensor { return []tensor.Tensor{i64v(sh)} })
 		}
+	}
+	// one attribute set, a sequence of requested shapes that differ only in rank (also exercises one
+	// instance applied several times, see the instance_reuse stream)
+	for ti := 0; ti < 11; ti += 5 {
+		tp, t := valueProto(ti, 1)
+		a := attr{name: "value", kind: "tensor", tp: tp, t: t}
+		for _, sh := range [][]int64{{4}, {4, 1}, {1, 4}, {2, 2}, {4}, {1, 1, 4}, {1, 5}, {5}, {5, 1}} {
+			sh := sh
+			emitOp(cw, "ConstantOfShape", []attr{a}, func() []tensor.Tensor { return []tensor.Tensor{i64v(sh)} })
+		}
+	}
+	for _, sh := range [][]int64{{3}, {3, 1}, {1, 3}, {3}} {
+		sh := sh
+		emitOp(cw, "ConstantOfShape", nil, func() []tensor.Tensor { return []tensor.Tensor{i64v(sh)} })
 	}
 	emitOp(cw, "ConstantOfShape", nil, func() []tensor.Tensor { return []tensor.Tensor{i64v([]int64{2, 3})} })
 	emitOp(cw, "ConstantOfShape", nil, func() []tensor.Tensor { return []tensor.Tensor{i64v([]int64{4})} })
